@@ -152,7 +152,12 @@ def _delta_nonneg(ck, prog):
         if isinstance(call.func, ast.Attribute) and call.func.attr == "deltaForm":
             return "nonneg"
         return None
-    s = sign_of(r[0].value, {}, g.mod, cs) if len(r) == 1 else "top"
+    from lcsa.sign import join
+    s = None
+    for rr in r:
+        si = sign_of(rr.value, {}, g.mod, cs) if rr.value is not None else "top"
+        s = si if s is None else join(s, si)
+    s = s or "top"
     ck.shape(s in ("nonneg", "pos", "zero"), "delta(): the combination of the two blob sizes is provably non-negative (sign found: %s)" % s, g.loc())
     ck.ob("SIGN", SEQ_PATH + ":Sequence.delta", s in ("nonneg", "pos", "zero"),
           expected="delta() >= 0", found=s, slot="delta>=0", where=g.loc())
